@@ -156,3 +156,75 @@ CONTRACTS = [
              notes="all histories of length <= 3 (4 in thorough) over {newer, same date, older by 300 ms, older, up-to-date, error status, garbage, transport failure} x client restarted at any step, real cache file, scripted transport; sequential only",
              props=["C15"]),
 ]
+
+
+# =============================================================================== two institutions, one data directory
+# The cache is per institution: what one institution's server sent must never be offered to, returned for, or
+# overwritten by another institution (another ORG/FID pair) - whatever characters the identifiers contain.
+# (Two servers with the SAME ORG/FID and different URLs do share an entry: known finding KF-C15-cache-key-ignores-url.)
+IDENTS = [("ORG", "77"), ("ORG", "78"), ("ORG2", "77"), ("A&B Bank", "1"), ("A+B Bank", "1"), ("A B Bank", "1"), ("A_B Bank", "1"),
+          ("AB", "C"), ("A", "BC"), ("org", "77"), ("ÖRG", "77"), ("ORG.", "77"), ("ORG", "7.7"), ("ORG", "7-7"), ("ORG-7", "7")]
+
+
+def run_two(it, fn, a):
+    (org1, fid1), (org2, fid2) = a
+    from ofxtools import config
+    from ofxtools.Client import OFXClient
+    tmp = tempfile.mkdtemp(prefix="verif-c15b-")
+    old = config.DATADIR
+    config.DATADIR = Path(tmp) / "ofxtools"
+    problems = []
+    try:
+        asked = []
+
+        class Scripted(OFXClient):
+            reply = None
+
+            def post_request(self, url, serialized_request, timeout):
+                from ofxtools.Parser import OFXTree
+                p = OFXTree(); p.parse(io.BytesIO(serialized_request))
+                asked.append((self.org, p.convert().profmsgsrqv1[0].profrq.dtprofup))
+                return self.reply
+        T1 = T0
+        T2 = T0 + datetime.timedelta(days=30)
+        c1 = Scripted("https://one.example/ofx", org=org1, fid=fid1)
+        c2 = Scripted("https://two.example/ofx", org=org2, fid=fid2)
+        c1.reply = profile_bytes(T1)
+        try:
+            r1 = c1.request_profile().read()
+        except Exception as ex:
+            return [] if "/" in org1 + fid1 else [f"first institution: {type(ex).__name__}: {ex}"]
+        c2.reply = profile_bytes(T2)
+        try:
+            r2 = c2.request_profile().read()
+        except Exception as ex:
+            return [f"second institution: {type(ex).__name__}: {ex}"]
+        if asked[-1][1] is not None and asked[-1][1].year > 1990:
+            problems.append(f"{org2!r}/{fid2!r} was asked with the profile date {asked[-1][1]} of {org1!r}/{fid1!r}")
+        if r2 != profile_bytes(T2):
+            problems.append("second institution was served something else than its own server's profile")
+        # the first institution's entry is untouched: an 'up to date' answer returns ITS profile
+        c1.reply = profile_bytes(None, code=1)
+        try:
+            r1b = c1.request_profile().read()
+            if r1b != profile_bytes(T1):
+                problems.append(f"{org1!r}/{fid1!r} is now served the profile of {org2!r}/{fid2!r}" if r1b == profile_bytes(T2) else "first institution's cached profile changed")
+        except Exception as ex:
+            problems.append(f"first institution after the second: {type(ex).__name__}: {ex}")
+        return problems
+    finally:
+        config.DATADIR = old
+        shutil.rmtree(tmp, ignore_errors=True)
+
+
+def cases_two(tier):
+    # pairs whose "ORG-FID" texts coincide (a '-' shifted between ORG and FID) are the known finding
+    # KF-C15-cache-key-hyphen-shift: carved out here, replayed on its own on every run
+    return [[a, b] for a in IDENTS for b in IDENTS if a != b and f"{a[0]}-{a[1]}" != f"{b[0]}-{b[1]}"]
+
+
+CONTRACTS.append(
+    Contract("ofxtools.Client:OFXClient.request_profile", args=[A_("first"), A_("second")], call=run_two,
+             ensures=[("institutions-do-not-share-a-cache-entry", "result == []")], cases=cases_two, native_only=True, shards=8,
+             notes="every ordered pair of 15 distinct ORG/FID pairs (punctuation, blanks, case, non-ASCII, a '-' moved between ORG and FID): the second institution is asked without a date and served its own profile, the first keeps its own",
+             props=["C15"]))
